@@ -41,7 +41,8 @@ pub(crate) fn simple_selectors(
     {
         compound
     } else {
-        todo!()
+        // a lone combinator (`simple-selectors(">")`) is not a compound selector
+        return Err(("$selector: expected selector.", args.span()).into());
     };
 
     Ok(Value::List(
